@@ -34,7 +34,14 @@ inline size_t gen_parse_input(Src& s, Ctx& ctx, size_t n_aux, unsigned& placemen
         auto body = [&](size_t align8) -> std::vector<uint8_t> {
             size_t n = s.range(0, 40);
             if (align8) n = ((n + 2 + 7) / 8) * 8 - 2;  // ICMPv6 options are a multiple of 8 bytes including type+length
-            return s.bytes(n);
+            std::vector<uint8_t> b = s.bytes(n);
+            // the first octets of an option body are usually lengths / pad counts / flags: bias them to values around the body size
+            for (size_t k = 0; k < 2 && k < b.size(); ++k) {
+                if (!s.chance(45)) continue;
+                unsigned c = (unsigned)s.range(0, 11);
+                b[k] = c < 8 ? (uint8_t)c : (c == 11 ? 0xff : (uint8_t)(n >= 11 - c + 1 ? n - (11 - c) - 1 : 0));
+            }
+            return b;
         };
         try {
             switch (s.range(0, 6)) {
